@@ -340,10 +340,38 @@ func checkC05(r *Result) {
 		}
 		r.check(okTot, "RECORD-EQUALS-TAKEN", "(x/reporter/keeper.Keeper).FeefromReporterStake # record total = sum moved now + previously recorded total (or zero)", P.Pos(ff.Pos()), totDetail)
 	}
+	// ---- RECORD-EQUALS-TAKEN (stake escrowed for a dispute): what a chase could not find must not be recorded as taken
+	if es := need("(x/reporter/keeper.Keeper).EscrowReporterStake"); es != nil {
+		n := 0
+		for _, cs := range P.CallSitesIn(es) {
+			if cs.Callee != "(x/reporter/keeper.Keeper).undelegate" {
+				continue
+			}
+			n++
+			used := false
+			if v := cs.Instr.Value(); v != nil {
+				for _, ref := range *v.Referrers() {
+					if ex, ok := ref.(*ssa.Extract); ok && ex.Index == 0 {
+						for _, rr := range *ex.Referrers() {
+							if _, dbg := rr.(*ssa.DebugRef); !dbg {
+								used = true
+							}
+						}
+					}
+				}
+			}
+			which := map[int]string{1: "chase 1 (recorded validator)", 2: "chase 2 (redelegation destination)"}[n]
+			if which == "" {
+				which = fmt.Sprintf("chase %d", n)
+			}
+			r.check(used, "RECORD-EQUALS-TAKEN", "(x/reporter/keeper.Keeper).EscrowReporterStake # the remainder returned by "+which+" is accounted for in the record", P.Pos(cs.Pos()), map[bool]string{true: "remainder used", false: "the remainder result of undelegate is discarded: the amount asked for is recorded as taken whatever was found"}[used])
+		}
+		r.check(n == 2, "RECORD-EQUALS-TAKEN", "(x/reporter/keeper.Keeper).EscrowReporterStake # two chases per backer", P.Pos(es.Pos()), fmt.Sprint(n))
+	}
 	r.minCount("CENSUS-STAKING", 8)
 	r.minCount("PAIR-DELEGATE", 10)
 	r.minCount("PAIR-UNBOND", 7)
-	r.minCount("RECORD-EQUALS-TAKEN", 3)
+	r.minCount("RECORD-EQUALS-TAKEN", 6)
 	r.minCount("SHARE-OF-MOVED", 3)
 }
 
